@@ -31,9 +31,10 @@ const (
 	WBatchInsert
 	WBatchRemove
 	WSnapshot // take a real snapshot (trySnapshot through the loop hook) on every live replica
+	WClear    // batch remove of every id: the partitions become empty (their snapshot is then the snapshot of an empty index)
 )
 
-var wNames = []string{"insert", "update", "remove", "batchInsert", "batchRemove", "snapshot"}
+var wNames = []string{"insert", "update", "remove", "batchInsert", "batchRemove", "snapshot", "clear"}
 
 type WOp struct {
 	K    int   `json:"k"`
@@ -84,16 +85,33 @@ func genCase(t *rapid.T) Case {
 	c := Case{Nodes: rapid.SampledFrom([]int{1, 1, 3}).Draw(t, "nodes"), Partitions: rapid.IntRange(1, 2).Draw(t, "partitions")}
 	ver := 0
 	op := rapid.Custom(func(t *rapid.T) WOp {
-		k := rapid.SampledFrom([]int{WInsert, WInsert, WInsert, WUpdate, WUpdate, WRemove, WBatchInsert, WBatchRemove, WSnapshot}).Draw(t, "k")
+		k := rapid.SampledFrom([]int{WInsert, WInsert, WInsert, WUpdate, WUpdate, WRemove, WBatchInsert, WBatchRemove, WSnapshot, WSnapshot, WClear}).Draw(t, "k")
 		o := WOp{K: k, Id: rapid.IntRange(0, 7).Draw(t, "id"), Meta: rapid.IntRange(0, 4).Draw(t, "meta"), Node: rapid.IntRange(0, 2).Draw(t, "node")}
 		if k == WBatchInsert || k == WBatchRemove {
 			o.Ids = rapid.SliceOfNDistinct(rapid.IntRange(0, 7), 1, 4, rapid.ID[int]).Draw(t, "ids")
+		}
+		if k == WClear {
+			o.K, o.Ids = WBatchRemove, []int{0, 1, 2, 3, 4, 5, 6, 7}
 		}
 		return o
 	})
 	nr := rapid.IntRange(1, 3).Draw(t, "rounds")
 	for i := 0; i < nr; i++ {
 		r := Round{Ops: rapid.SliceOfN(op, 2, pbt.Pick(12, 24)).Draw(t, "ops")}
+		// now and then a burst of 18 single writes: a node that is down meanwhile falls more than the 16 entries behind
+		// that the log store keeps in front of a snapshot, so it can only catch up through the leader's snapshot
+		if c.Nodes == 3 && rapid.IntRange(0, 2).Draw(t, "burst") == 0 {
+			at := rapid.IntRange(0, len(r.Ops)).Draw(t, "burstat")
+			var burst []WOp
+			for j := 0; j < 18; j++ {
+				k := WInsert
+				if j%3 != 0 {
+					k = WUpdate
+				}
+				burst = append(burst, WOp{K: k, Id: (j / 3) % 8, Meta: j % 5, Node: j % 3})
+			}
+			r.Ops = append(append(append([]WOp(nil), r.Ops[:at]...), burst...), r.Ops[at:]...)
+		}
 		for j := range r.Ops {
 			ver++
 			r.Ops[j].Ver = ver
@@ -456,6 +474,20 @@ func check(c Case, o *pbt.Obs) *pbt.Failure {
 		if catchupMon != nil {
 			catchupMon.Disarm()
 		}
+		if ds := cl.Dataset(crashNode, slot); ds != nil {
+			for p := 0; p < c.Partitions; p++ {
+				if m := cl.Mon(crashNode, ds.VerifPartitionId(p)); m != nil {
+					for _, k := range m.KindsCopy() {
+						if k == sim.WriteSnapshot {
+							o.Label("restarted-replica-installed-a-received-snapshot")
+						}
+					}
+					if m.EmptySnapshotInstalls > 0 {
+						o.Label("restarted-replica-installed-the-snapshot-of-an-empty-partition")
+					}
+				}
+			}
+		}
 		for _, v := range cl.WalViolations() {
 			return pbt.Failf("C03:log-store-invariant", "round %d after restart: %s", ri, v)
 		}
@@ -584,7 +616,7 @@ func readState(ds interface {
 func TestAckedWritesSurviveCrash(t *testing.T) {
 	pbt.Run(t, pbt.Prop[Case]{
 		ID: "C03", Name: "TestAckedWritesSurviveCrash",
-		Rule: "rapid-generated write histories (insert/update/remove/batch insert/batch remove over 8 ids, optional real snapshots via the loop hook) through storage.Dataset on 1 node or on 3 nodes hosting every partition (product path: partitions created by the real DatasetManager/Allocator, raft groups loaded by watch->loadRaft, also on restart), in 1-3 rounds; each round arms a crash at the K-th next durable write (K in 1..6, before or after performing it) of one partition's log store on one node, armed before a generated op, with a generated settle pause; if the plan does not fire the node is killed between writes; then the node restarts over the same store (catalogue replayed, raft reloaded) and, in the 3-node case, catches up; oracle: acknowledgements are recorded under the same mutex as the crash flag; per id the recovered state must equal the state after the last acknowledged op or one produced by an in-flight op, and must be something a submitted write could have produced; log-store invariants (durable term/commit never go back, no vote change within a term, no overwrite of committed entries), 'persist before acknowledge' at the message level (a granted vote / accepted append leaves a replica only after the term+vote / entries it attests are durable in its log store) and 'no log.Fatal without injected crash' hold throughout; non-trivial = the crash plan fired at a durable-write boundary after >=1 acknowledged write of that round; distinct = distinct case JSON",
+		Rule: "rapid-generated write histories (insert/update/remove/batch insert/batch remove over 8 ids, batch removes of all 8 ids that empty the partitions, real snapshots via the loop hook; in a third of the 3-node rounds a burst of 18 single writes so that a replica that is down falls behind the log kept in front of a snapshot) through storage.Dataset on 1 node or on 3 nodes hosting every partition (product path: partitions created by the real DatasetManager/Allocator, raft groups loaded by watch->loadRaft, also on restart), in 1-3 rounds; each round arms a crash at the K-th next durable write (K in 1..6, before or after performing it) of one partition's log store on one node, armed before a generated op, with a generated settle pause; if the plan does not fire the node is killed between writes; then the node restarts over the same store (catalogue replayed, raft reloaded) and, in the 3-node case, catches up; oracle: acknowledgements are recorded under the same mutex as the crash flag; per id the recovered state must equal the state after the last acknowledged op or one produced by an in-flight op, and must be something a submitted write could have produced; log-store invariants (durable term/commit never go back, no vote change within a term, no overwrite of committed entries), 'persist before acknowledge' at the message level (a granted vote / accepted append leaves a replica only after the term+vote / entries it attests are durable in its log store) and 'no log.Fatal without injected crash' hold throughout; non-trivial = the crash plan fired at a durable-write boundary after >=1 acknowledged write of that round; distinct = distinct case JSON",
 		Gen:     genCase,
 		Check:   check,
 		Journal: true,
